@@ -137,7 +137,7 @@ Qed.
 
 Theorem trim_idem s : trim_ows (trim_ows s) = trim_ows s.
 Proof.
-  unfold trim_ows. set (t := trim_ows_left s). set (u := trim_ows_left (rev t)).
+  rewrite !trim_ows_rev. set (t := trim_ows_left s). set (u := trim_ows_left (rev t)).
   (* u starts with a non-space byte; so does rev u (its head is the head of t) *)
   assert (Hu : trim_ows_left u = u) by (apply trim_left_fixed; unfold u; apply trim_left_head).
   assert (Ht : trim_ows_left (rev u) = rev u).
